@@ -6,6 +6,10 @@ Property theorems only.  All statements are exact identities over `Rat` about th
 correspondence run (harness/c03.py), not proved.
 -/
 import Midgard.Model.TimeArith
+import Midgard.Generated.SourceExprsTime
+import Mathlib.Tactic.Ring
+import Mathlib.Tactic.NormNum
+import Mathlib.Algebra.Order.Field.Rat
 
 namespace Midgard.Props.C03
 open Midgard.TimeArith
@@ -121,6 +125,74 @@ example : (tSubD ⟨2458000.5, 1/4⟩ (DFmt.toJds .days (13/4) 0)) = ⟨2457997.
 example : DFmt.toJds .seconds (-43200) 0 = ⟨-1, 1/2⟩ := by decide +kernel
 example : roundHalfEven (5/2) = 2 ∧ roundHalfEven (7/2) = 4 ∧ roundHalfEven (-5/2) = -2 := by decide +kernel
 
+
+/-! ### The model is the source (regenerated on every run)
+
+`Generated/SourceExprsTime.lean` is written by `translator/extract_exprs.py` from the Python `ast` of `_time.py` in
+the tree under test: for each of the four operator methods and each kind of right-hand operand the branch the method
+takes (which parts each result part is built from, what kind of object it returns, or `NotImplemented`), the scale
+guard, and `_to_jds`/`_from_jds` of the duration formats jd, days, seconds.  The theorems of this section say that
+the model's `binop`, `DFmt.toJds`, `DFmt.fromJds` are *equal* to those regenerated definitions.  Hand-modelled and
+tied by the correspondence only: the `timedelta` format (CPython's timedelta arithmetic) and NumPy broadcasting. -/
+section Source
+open Midgard.Generated
+set_option linter.unusedTactic false
+set_option linter.unreachableTactic false
+set_option linter.unnecessarySeqFocus false
+set_option linter.unusedSimpArgs false
+
+/-- the model's result of an operator as the generated definitions express it -/
+def resOf : Res → Option (Bool × Rat × Rat)
+  | .notImplemented => none
+  | .ok .time j => some (false, j.jd1, j.jd2)
+  | .ok .delta j => some (true, j.jd1, j.jd2)
+
+/-- what the source returns for an operator and operand kinds (equal scales) -/
+def srcBinop (op : Op) (ka kb : Kind) (a b : JD) : Option (Bool × Rat × Rat) :=
+  match op, ka, kb with
+  | .add, .time, .delta => SrcTime.timeAddDeltaSrc a.jd1 a.jd2 b.jd1 b.jd2
+  | .add, .time, .time => SrcTime.timeAddTimeSrc a.jd1 a.jd2 b.jd1 b.jd2
+  | .sub, .time, .delta => SrcTime.timeSubDeltaSrc a.jd1 a.jd2 b.jd1 b.jd2
+  | .sub, .time, .time => SrcTime.timeSubTimeSrc a.jd1 a.jd2 b.jd1 b.jd2
+  | .add, .delta, .delta => SrcTime.deltaAddDeltaSrc a.jd1 a.jd2 b.jd1 b.jd2
+  | .add, .delta, .time => SrcTime.deltaAddTimeSrc a.jd1 a.jd2 b.jd1 b.jd2
+  | .sub, .delta, .delta => SrcTime.deltaSubDeltaSrc a.jd1 a.jd2 b.jd1 b.jd2
+  | .sub, .delta, .time => SrcTime.deltaSubTimeSrc a.jd1 a.jd2 b.jd1 b.jd2
+
+/-- equal scales: the dispatch and the part-by-part arithmetic of all eight operator branches are the source's -/
+theorem source_binop (op : Op) (ka kb : Kind) (s : Scale) (a b : JD) :
+    resOf (binop op ka s a kb s b) = srcBinop op ka kb a b := by
+  cases op <;> cases ka <;> cases kb <;>
+    (simp only [binop, ne_eq, not_true_eq_false, if_false, resOf, srcBinop, tAddD, tSubD, tSubT, dAddD, dSubD, dAddT,
+      SrcTime.timeAddDeltaSrc, SrcTime.timeAddTimeSrc, SrcTime.timeSubDeltaSrc, SrcTime.timeSubTimeSrc, SrcTime.deltaAddDeltaSrc,
+      SrcTime.deltaAddTimeSrc, SrcTime.deltaSubDeltaSrc, SrcTime.deltaSubTimeSrc, Option.some.injEq, Prod.mk.injEq, true_and]
+     <;> (first | rfl | (constructor <;> ring_nf)))
+
+/-- different scales: every method's first statement refuses (the four guarded entry points of the source) -/
+theorem source_binop_mixed (a b : JD) :
+    SrcTime.timeAddMixedSrc a.jd1 a.jd2 b.jd1 b.jd2 = none ∧ SrcTime.timeSubMixedSrc a.jd1 a.jd2 b.jd1 b.jd2 = none ∧
+    SrcTime.deltaAddMixedSrc a.jd1 a.jd2 b.jd1 b.jd2 = none ∧ SrcTime.deltaSubMixedSrc a.jd1 a.jd2 b.jd1 b.jd2 = none ∧
+    (∀ op ka kb sa sb, sa ≠ sb → binop op ka sa a kb sb b = .notImplemented) := by
+  refine ⟨rfl, rfl, rfl, rfl, ?_⟩
+  intro op ka kb sa sb h
+  simp [binop, h]
+
+/-- the duration formats: `_to_jds` / `_from_jds` of jd, days, seconds (Unit.second2day = 1/86400, Unit.day2second = 86400) -/
+theorem source_duration_formats (v v2 : Rat) (j : JD) :
+    (let r := DFmt.toJds .jd v v2; SrcTime.deltaJdToJdsSrc v v2 (1 / day2sec) = (r.jd1, r.jd2)) ∧
+    (let r := DFmt.toJds .days v v2; SrcTime.deltaDayToJdsSrc v v2 (1 / day2sec) = (r.jd1, r.jd2)) ∧
+    (let r := DFmt.toJds .seconds v v2; SrcTime.deltaSecToJdsSrc v v2 (1 / day2sec) = (r.jd1, r.jd2)) ∧
+    SrcTime.deltaJdFromJdsSrc day2sec j.jd1 j.jd2 = DFmt.fromJds .jd j ∧
+    SrcTime.deltaDayFromJdsSrc day2sec j.jd1 j.jd2 = DFmt.fromJds .days j ∧
+    SrcTime.deltaSecFromJdsSrc day2sec j.jd1 j.jd2 = DFmt.fromJds .seconds j := by
+  have hdiv : ∀ x : Rat, x * (1 / day2sec) = x / day2sec := fun x => by ring
+  refine ⟨?_, ?_, ?_, ?_, ?_, ?_⟩ <;>
+    (simp only [DFmt.toJds, DFmt.fromJds, splitFloor, SrcTime.deltaJdToJdsSrc, SrcTime.deltaDayToJdsSrc, SrcTime.deltaSecToJdsSrc,
+       SrcTime.deltaJdFromJdsSrc, SrcTime.deltaDayFromJdsSrc, SrcTime.deltaSecFromJdsSrc, SrcTime.HasFloor.floor, hdiv, Prod.mk.injEq]
+     <;> (first | rfl | (constructor <;> ring_nf) | ring_nf))
+
+end Source
+
 end Midgard.Props.C03
 
 #print axioms Midgard.Props.C03.add_sub_cancel
@@ -137,3 +209,6 @@ end Midgard.Props.C03
 #print axioms Midgard.Props.C03.toJds_normalised
 #print axioms Midgard.Props.C03.mixed_scale_refused
 #print axioms Midgard.Props.C03.same_scale_dispatch
+#print axioms Midgard.Props.C03.source_binop
+#print axioms Midgard.Props.C03.source_binop_mixed
+#print axioms Midgard.Props.C03.source_duration_formats
